@@ -10,7 +10,6 @@ import (
 	"time"
 
 	regexp2 "github.com/dlclark/regexp2/v2"
-	"github.com/dlclark/regexp2/v2/compat"
 	"github.com/dlclark/regexp2/v2/vsim"
 )
 
@@ -443,19 +442,21 @@ func execOp(re *regexp2.Regexp, op *Op, ctx *opCtx) (out string) {
 		}
 		return sb.String()
 	case OpCompatMatch:
-		c := compat.Wrap(re)
+		c := adapterOf(re)
 		return fmt.Sprintf("%v %v", c.MatchString(in), c.Match([]byte(in)))
 	case OpCompatSubmatchIndex:
-		c := compat.Wrap(re)
-		return fmt.Sprintf("%v %q %q", c.FindStringSubmatchIndex(in), c.FindStringSubmatch(in), c.Find([]byte(in)))
+		c := adapterOf(re)
+		return fmt.Sprintf("%v %q %q %v %v %q %v %q", c.FindStringSubmatchIndex(in), c.FindStringSubmatch(in), c.Find([]byte(in)),
+			c.FindSubmatchIndex([]byte(in)), c.FindStringIndex(in), c.FindString(in), c.FindIndex([]byte(in)), c.FindSubmatch([]byte(in)))
 	case OpCompatAllSubmatch:
-		c := compat.Wrap(re)
-		return fmt.Sprintf("%q %v", c.FindAllStringSubmatch(in, op.N), c.FindAllStringSubmatchIndex(in, op.N))
+		c := adapterOf(re)
+		return fmt.Sprintf("%q %v %v %q %q", c.FindAllStringSubmatch(in, op.N), c.FindAllStringSubmatchIndex(in, op.N),
+			c.FindAllSubmatchIndex([]byte(in), op.N), c.FindAll([]byte(in), op.N), c.FindAllSubmatch([]byte(in), op.N))
 	case OpCompatAllIndex:
-		c := compat.Wrap(re)
+		c := adapterOf(re)
 		return fmt.Sprintf("%v %q %v", c.FindAllIndex([]byte(in), op.N), c.FindAllString(in, op.N), c.FindAllStringIndex(in, op.N))
 	case OpCompatReader:
-		c := compat.Wrap(re)
+		c := adapterOf(re)
 		return fmt.Sprintf("%v %v %v", c.MatchReader(&strReader{r: []rune(in)}), c.FindReaderSubmatchIndex(&strReader{r: []rune(in)}), c.FindReaderIndex(&strReader{r: []rune(in)}))
 	case OpGroupInfo:
 		names := re.GetGroupNames()
